@@ -276,6 +276,8 @@ def run(ctx, audit):
     n = min(12, len(jobs))
     common.run_sharded(ctx, "props.c10", "shard", [(jobs[i::n],) for i in range(n)])
     model_self_check(ctx)
+    from props import c12
+    c12.all_impossible(impl.load(), ctx)      # a dead collection keeps evidence 0 through resample
     return {"rule": RULE}
 
 
